@@ -89,7 +89,11 @@ SIGNATURE RECORD  (one per translate_function call, emitted after the defs)
   (`Basic/PyFn.lean`: reducible identities; `simp only [PyFn.warnGate, PyFn.anyS, Bool.true_and]` removes them).
 
 ACCEPTED PYTHON SUBSET (everything else => ExtractError with line number)
-  statements  docstring; `x = e`; `x = y = e` (chained); `x: float = e`; `x op= e` for + - * / **; `assert ...` (ignored);
+  statements  docstring; `x = e`; `x = y = e` (chained); `x: float = e`; `x op= e` for + - * / ** (read as `x = x op e`;
+              when `x` is a parameter or an alias of another name this is NOT what Python does for array arguments:
+              such statements are listed in `<lean_name>InPlace`, in d.impure and hashed into @skipped, so the `…_sig_guard`
+              opens -- extractors that desugar `op=` themselves should call `P.impure_augassigns(fnode)` and pass the
+              result as extra_skipped); `assert ...` (ignored);
               `a, b = e1, e2`; `a = (e1, e2, ...)` (kept symbolic, items let-bound as a_0..);
               `be = get_backend(backend)`; `atanh = be.atanh if hasattr(be, "atanh") else be.arctanh`;
               `if <static test>: ... else: ...` specialised to the branch taken (tests: `x is None`,
@@ -314,6 +318,7 @@ class _Tr:
         self.used = set()
         self.skipped = []         # ast.dump of every statement / expression the translation did not visit
         self.warn_src = []        # source-level record of every warnings.warn call with its guard chain
+        self.impure = []          # in-place updates that are not pure re-bindings (impure_augassigns)
         self.backend_src = []     # how the backend is obtained and which of its attributes are used (source text, first use)
 
     def err(self, node, msg):
@@ -823,6 +828,85 @@ def find_unique_def(tree, name):
     return found[0]
 
 
+def impure_augassigns(f):
+    """Augmented assignments of function `f` that are NOT equivalent to `x = x op e` for every argument type.
+    `x op= e` mutates the object bound to `x` in place when that object is mutable (numpy array, list): if the same object is
+    reachable under another name -- `x` is a PARAMETER (the caller's array is modified) or `x` was bound by plain aliasing
+    (`x = y`, `x = y[i]`, `x = obj.attr`, a conditional expression / tuple element that is such a name) -- the pure reading that the
+    translator (and every extractor that desugars `op=` itself) emits is wrong for array arguments.  A name is *fresh* when its
+    last binding is the value of an arithmetic expression, a call or a literal.  Returns ['line N: `t -= t0` (t is a parameter)', ...].
+    Conservative, flow-insensitive over branches (statements are visited in source order)."""
+    params = {a.arg for a in f.args.posonlyargs + f.args.args + f.args.kwonlyargs}
+    if f.args.vararg:
+        params.add(f.args.vararg.arg)
+    if f.args.kwarg:
+        params.add(f.args.kwarg.arg)
+    fresh, why, out = set(), {p_: 'a parameter' for p_ in params}, []
+
+    def is_fresh(v):
+        if isinstance(v, (ast.BinOp, ast.UnaryOp, ast.Call, ast.Constant, ast.Compare, ast.BoolOp, ast.JoinedStr)):
+            return True, None
+        if isinstance(v, ast.IfExp):
+            for br in (v.body, v.orelse):
+                ok, w = is_fresh(br)
+                if not ok:
+                    return False, w
+            return True, None
+        if isinstance(v, ast.Name):
+            if v.id in fresh:
+                return False, 'an alias of %s' % v.id       # the two names now share one object
+            return False, 'an alias of %s' % v.id
+        return False, 'an alias of `%s`' % ast.unparse(v)
+
+    def bind(t, v):
+        if isinstance(t, ast.Name):
+            ok, w = is_fresh(v) if v is not None else (False, 'bound by a loop / with')
+            if ok:
+                fresh.add(t.id)
+                why.pop(t.id, None)
+            else:
+                fresh.discard(t.id)
+                why[t.id] = w
+                if isinstance(v, ast.Name):          # aliasing is symmetric: the source name is shared from now on
+                    if v.id in fresh:
+                        fresh.discard(v.id)
+                        why[v.id] = 'aliased by %s' % t.id
+        elif isinstance(t, (ast.Tuple, ast.List)):
+            elts = v.elts if isinstance(v, (ast.Tuple, ast.List)) and len(v.elts) == len(t.elts) else [None] * len(t.elts)
+            for te, ve in zip(t.elts, elts):
+                bind(te, ve)
+
+    def visit(stmts):
+        for st in stmts:
+            if isinstance(st, ast.Assign):
+                for t in st.targets:
+                    bind(t, st.value)
+                if len(st.targets) > 1:              # x = y = expr : x and y share one object
+                    for t in st.targets:
+                        if isinstance(t, ast.Name):
+                            fresh.discard(t.id)
+                            why[t.id] = 'bound together with %s' % ', '.join(x.id for x in st.targets if isinstance(x, ast.Name) and x is not t)
+            elif isinstance(st, ast.AnnAssign) and st.value is not None:
+                bind(st.target, st.value)
+            elif isinstance(st, ast.AugAssign):
+                if isinstance(st.target, ast.Name):
+                    if st.target.id not in fresh:
+                        out.append('line %d: `%s` (%s is %s)' % (st.lineno, ast.unparse(st), st.target.id,
+                                                                  why.get(st.target.id, 'not bound to a fresh value')))
+                else:
+                    out.append('line %d: `%s` (in-place update of a container element / attribute)' % (st.lineno, ast.unparse(st)))
+            elif isinstance(st, (ast.For, ast.AsyncFor)):
+                bind(st.target, None)
+            for fld in ('body', 'orelse', 'finalbody'):
+                sub = getattr(st, fld, None)
+                if isinstance(sub, list) and not isinstance(st, (ast.FunctionDef, ast.AsyncFunctionDef, ast.ClassDef)):
+                    visit(sub)
+            for h in getattr(st, 'handlers', []) or []:
+                visit(h.body)
+    visit(f.body)
+    return out
+
+
 def _sig_record(f, src, tr, largs, fixed, objects, extra_skipped):
     """[(key, text)]: every parameter with the source text of its default ('<required>' if none), then
     @decorators, @args (the Lean argument list), @fixed/@objects (the specialisation), @warn (every warnings.warn call with the
@@ -844,7 +928,7 @@ def _sig_record(f, src, tr, largs, fixed, objects, extra_skipped):
     rec.append(('@objects', ', '.join(sorted(objects))))
     rec.append(('@warn', ' ;; '.join(tr.warn_src)))
     rec.append(('@backend', ' ; '.join(tr.backend_src)))
-    sk = list(tr.skipped) + [str(x) for x in (extra_skipped or [])]
+    sk = list(tr.skipped) + [str(x) for x in (extra_skipped or [])] + ['inplace ' + x for x in tr.impure]
     rec.append(('@skipped', ('sha1:' + hashlib.sha1('\n'.join(sk).encode()).hexdigest()[:16] + ' (%d)' % len(sk)) if sk else ''))
     return rec
 
@@ -969,6 +1053,12 @@ def translate_function(src, tree, funcname, *, lean_name=None, const_env=None, p
         out.append('/-- the messages `%s(..., warn=True)` passes to warnings.warn, in order -/\ndef %s %s : List String :=\n%s'
                    % (funcname, msgs_name, whead,
                       body(tr.lets[:nl], ' ++ '.join('(if %s then [%s] else [])' % (c, lean_str(m)) for _, c, m in tr.warns))))
+    tr.impure = impure_augassigns(f)
+    if tr.impure:
+        # the pure text above is NOT what the Python does for array arguments: say so in Gen (and in @skipped, which opens the guard)
+        out.append('/-- IN-PLACE updates of `%s` that the translation above reads as pure re-bindings (`x = x op e`): they modify a\n'
+                   'caller\'s array / an aliased temporary when the arguments are numpy arrays.  Their presence changes `@skipped`. -/\n'
+                   'def %sInPlace : List String := [%s]\n' % (funcname, lean_name, ', '.join(lean_str(x) for x in tr.impure)))
     sig = _sig_record(f, src, tr, largs, fixed, objects, extra_skipped)
     sig_name = lean_name + 'Sig'
     out.append('/-- signature record of `%s` as specialised for `%s`: (parameter, default) pairs in source order, then\n'
@@ -978,7 +1068,7 @@ def translate_function(src, tree, funcname, *, lean_name=None, const_env=None, p
                'def %s : List (String × String) :=\n  [%s]\n'
                % (funcname, lean_name, sig_name, ',\n   '.join('(%s, %s)' % (lean_str(k), lean_str(v)) for k, v in sig)))
     d = LeanDef('\n'.join(out))
-    d.sig_name, d.sig, d.unit_args = sig_name, sig, unit_args
+    d.sig_name, d.sig, d.unit_args, d.impure = sig_name, sig, unit_args, tr.impure
     d.name, d.names, d.args, d.pyargs, d.classes = lean_name, names, largs, pyargs, classes
     d.n_results, d.warn_name, d.warn_msgs_name, d.warn_classes, d.pyname = nres, warn_name, msgs_name, wclasses, funcname
     return d
@@ -1200,6 +1290,11 @@ def selftest(real=False, repo='/repo'):
     assert "(warn and _any(abs(t) > 10 * K)) => warnings.warn('far', UserWarning, stacklevel=2)" == sig['@warn'], sig['@warn']
     assert sig['@skipped'].startswith('sha1:') and dict(d_hu.sig)['@skipped'] != sig['@skipped']
     assert 'PyFn.warnGate && (PyFn.anyS' in d_h and '"far [UserWarning, stacklevel=2]"' in d_h, d_h
+    assert d_h.impure == [] and 'InPlace' not in d_h, d_h.impure          # t is fresh (`t: float = x * K - 3 * K`)
+    isrc2 = 'def g(t, t0, k):\n    t -= t0\n    x3 = -k * t\n    x4 = x3\n    x4 -= k\n    y = t * 2\n    y *= 3\n    return x4 + y\n'
+    d_g = translate_function(isrc2, ast.parse(isrc2), 'g')
+    assert len(d_g.impure) == 2 and 't is a parameter' in d_g.impure[0] and 'x4 is an alias of x3' in d_g.impure[1], d_g.impure
+    assert 'gInPlace' in d_g and dict(d_g.sig)['@skipped'].startswith('sha1:')
     for old, new in (('warn=True', 'warn=False'), ('if warn and _any(abs', 'if _any(abs'), ('_any(abs(t)', 'np.any(abs(t)'),
                      ('"far", UserWarning', '"far", DeprecationWarning'), ('K = units.Kelvin', 'K = units.kelvin')):
         src2 = SELFTEST_SRC.replace(old, new)
